@@ -61,10 +61,13 @@ PROPS["C13"] = {
         {"pkg": ".", "dir": "s3db", "entry": "VerifH_C13_readonly",
          "quick": {"params": "maxversions=2,steps=2", "workers": 16, "timeout": 900},
          "thorough": {"params": "maxversions=3,steps=3", "workers": 16, "timeout": 3000}},
+        {"pkg": "sqlite", "dir": "sqlite", "entry": "VerifH_C13_sqlite", "extra": [("s3db_export", ".")], "no_native": True,
+         "quick": {"params": "steps=2", "workers": 16, "timeout": 1800},
+         "thorough": {"params": "steps=3", "workers": 16, "timeout": 7200}},
     ],
     "bounds": {"quick": "0..2 unmerged versions; sequences of 2 operations from {insert, update, delete, begin+commit, begin+rollback, vacuum, delete-historic-versions, roots}",
                "thorough": "0..3 versions, 3 operations"},
-    "outside": "the sqlite-layer wrappers (Sync's read-only short-circuit is covered by C05/C13 sqlite harness when built)",
+    "outside": "argument parsing of the maintenance tables",
     "assumptions": [TIME_RANGE],
 }
 
@@ -157,6 +160,8 @@ PROPS["C14"] = {
         {"pkg": ".", "dir": "s3db", "entry": "VerifH_C14_faults",
          "quick": {"params": "kinds=1", "workers": 16, "timeout": 1200},
          "thorough": {"params": "kinds=2", "workers": 16, "timeout": 3000}},
+        {"pkg": "sqlite", "dir": "sqlite", "entry": "VerifH_C14_sqlite", "extra": [("s3db_export", ".")], "no_native": True,
+         "quick": {"workers": 16, "timeout": 1800}},
     ],
     "bounds": "5 scenarios {read-only open+scan, writable open+scan, open+insert+commit+scan, range scan, vacuum+scan} x {one version, two unmerged versions} on a depth-2 table; fault position symbolic over every request of the scenario, kind (transport error | deadline) and persistence (single | persistent) symbolic",
     "outside": "the AWS SDK's own retry loop and wall-clock behaviour; s3db_changes under faults (C12)",
@@ -168,6 +173,8 @@ PROPS["C02"] = {
         {"pkg": ".", "dir": "s3db", "entry": "VerifH_C02_history",
          "quick": {"params": "stmts=3,writers=2", "workers": 16, "timeout": 1200},
          "thorough": {"params": "stmts=4,writers=2", "workers": 16, "timeout": 7200}},
+        {"pkg": ".", "dir": "s3db", "entry": "VerifH_C02_history", "tag": "-upd-upd-del",
+         "quick": {"params": "stmts=4,writers=2,shape=1,nulls=0", "workers": 16, "timeout": 1200}},
     ],
     "bounds": {"quick": "one key, two non-key columns, 3 statements (kind, assigned columns, write time and values symbolic; distinct write times), 2 writers, one optional commit+refresh point, every merge order at the final open",
                "thorough": "4 statements"},
@@ -192,6 +199,11 @@ PROPS["C15"] = {
         {"pkg": ".", "dir": "s3db", "entry": "VerifH_C02_history",
          "quick": {"params": "stmts=2,writers=2,retry=1,nulls=0", "workers": 16, "timeout": 1800},
          "thorough": {"params": "stmts=3,writers=2,retry=1,nulls=0", "workers": 16, "timeout": 14000}},
+        {"pkg": ".", "dir": "s3db", "entry": "VerifH_C02_history", "tag": "-ties",
+         "quick": {"params": "stmts=2,writers=2,retry=1,nulls=0,ties=1", "workers": 16, "timeout": 1800},
+         "thorough": {"params": "stmts=3,writers=2,retry=1,nulls=0,ties=1", "workers": 16, "timeout": 14000}},
+        {"pkg": ".", "dir": "s3db", "entry": "VerifH_C02_history", "tag": "-upd-upd-del",
+         "quick": {"params": "stmts=4,writers=2,shape=1,nulls=0", "workers": 16, "timeout": 1200}},
         {"pkg": "sqlite", "dir": "sqlite", "entry": "VerifH_C15_conn", "extra": [("s3db_export", ".")], "no_native": True,
          "quick": {"params": "steps=4", "workers": 16, "timeout": 1800},
          "thorough": {"params": "steps=5", "workers": 16, "timeout": 7200}},
